@@ -115,11 +115,11 @@ def match_bool(s: str, pos: int) -> int:
 
 
 def matchbool(c: Cursor) -> bool | None:
-    if (p := match_bool(c.textstr, c.pos)) is None:
+    if (p := match_bool(c.textstr, c.pos)) < 0:
         return None
     i = c.pos
     c.goto(p)
-    return bool(c.textstr[i:p].capitalize())
+    return c.textstr[i:p].capitalize() == 'True'
 
 
 def match_uint(s: str, pos: int) -> int:
